@@ -4,8 +4,10 @@ import (
 	"errors"
 	"fmt"
 	"math/rand"
+	"runtime"
 	"strconv"
 	"strings"
+	"sync"
 
 	"github.com/Fantom-foundation/lachesis-base/eventcheck"
 	"github.com/Fantom-foundation/lachesis-base/gossip/dagordering"
@@ -113,8 +115,71 @@ func c14ErrCode(err error) string {
 	return "9"
 }
 
+// c14T5Premise: the history is pushes (optionally a final Clear) of distinct events forming a
+// parents-closed DAG, the limits cannot bind and no callback failed (statistics only; the
+// verdict is computed by the extracted t5_check).
+func c14T5Premise(hist *c14Hist, log []string) bool {
+	type ev struct {
+		pars []uint64
+		size uint64
+	}
+	evs := map[uint64]ev{}
+	var total uint64
+	n := 0
+	for i, op := range hist.ops {
+		switch op[0] {
+		case "P":
+			id := c14U(op[1])
+			if _, dup := evs[id]; dup {
+				return false
+			}
+			var ps []uint64
+			for _, t := range op[4:] {
+				ps = append(ps, c14U(t))
+			}
+			evs[id] = ev{ps, c14U(op[2])}
+			total += c14U(op[2])
+			n++
+		case "K":
+			if i != len(hist.ops)-1 {
+				return false
+			}
+		default:
+			return false
+		}
+	}
+	if uint64(n) > hist.limN || total > hist.limS {
+		return false
+	}
+	for _, t := range log {
+		if (t[0] == 'C' || t[0] == 'P') && strings.HasSuffix(t, ".0") {
+			return false
+		}
+	}
+	res := map[uint64]bool{}
+	for round := 0; round <= n; round++ {
+		for id, e := range evs {
+			ok := true
+			for _, p := range e.pars {
+				if !res[p] {
+					ok = false
+				}
+			}
+			if ok {
+				res[id] = true
+			}
+		}
+	}
+	return len(res) == n
+}
+
 func c14Run(in []string) []string {
 	hist := c14Parse(in)
+	for _, op := range hist.ops {
+		if len(op) == 2 && op[0] == "G" {
+			return c14RunConcurrent(hist, int(c14U(op[1])))
+		}
+	}
 	var log []string
 	connected := map[uint64]dag.Event{}
 	nCheck := map[uint64]uint64{}
@@ -218,7 +283,207 @@ func c14Run(in []string) []string {
 			panic("bad op")
 		}
 	}
+	if c14T5Premise(hist, log) {
+		vu.Stat("t5_premise_true")
+	}
 	return log
+}
+
+// c14RunConcurrent: the pushes between two non-push ops are issued by g goroutines concurrently
+// (events are assigned to goroutines by id, so all copies of an event come from one goroutine, in
+// script order).  PushEvent holds the buffer's mutex for its whole duration and every callback
+// runs under it, so the pushes are linearised; the linearisation point of a push is observed as
+// the first ID() read of the pushed copy (PushEvent does it first thing under the lock).  The
+// observation starts with L.<script push indices in linearised order>; copies are numbered in
+// that order (as the model numbers them).  Total() after a push cannot be read atomically from
+// outside: the D tokens carry "?" instead.
+func c14RunConcurrent(hist *c14Hist, g int) []string {
+	if g < 2 || g > 8 {
+		panic("bad goroutine count")
+	}
+	type rec struct {
+		start *gsev.Ev // a push begins
+		tok   string   // or: callback token with %c standing for the copy
+		ev    *gsev.Ev
+	}
+	var mu sync.Mutex
+	var recs []rec
+	connected := map[uint64]dag.Event{}
+	nCheck := map[uint64]uint64{}
+	nProc := map[uint64]uint64{}
+	complete := map[*gsev.Ev]bool{}
+	b := func(ok bool) string {
+		if ok {
+			return "1"
+		}
+		return "0"
+	}
+	buf := dagordering.New(dag.Metric{Num: idx.Event(hist.limN), Size: hist.limS}, dagordering.Callback{
+		Process: func(e dag.Event) error {
+			mu.Lock()
+			defer mu.Unlock()
+			id := gsev.Num(e.ID())
+			nProc[id]++
+			fail := c14Hit(hist.fp, id, nProc[id])
+			recs = append(recs, rec{tok: fmt.Sprintf("P.%%c.%d.%s", id, b(!fail)), ev: e.(*gsev.Ev)})
+			if fail {
+				return c14ErrProcess
+			}
+			connected[id] = e
+			return nil
+		},
+		Released: func(e dag.Event, peer string, err error) {
+			mu.Lock()
+			defer mu.Unlock()
+			code := c14ErrCode(err)
+			if peer != "peer"+strconv.Itoa(e.(*gsev.Ev).Cid) {
+				code = "8"
+			}
+			recs = append(recs, rec{tok: fmt.Sprintf("R.%%c.%d.%s", gsev.Num(e.ID()), code), ev: e.(*gsev.Ev)})
+		},
+		Get: func(id hash.Event) dag.Event {
+			mu.Lock()
+			defer mu.Unlock()
+			if e, ok := connected[gsev.Num(id)]; ok {
+				return e
+			}
+			return nil
+		},
+		Exists: func(id hash.Event) bool {
+			mu.Lock()
+			defer mu.Unlock()
+			_, ok := connected[gsev.Num(id)]
+			return ok
+		},
+		Check: func(e dag.Event, parents dag.Events) error {
+			mu.Lock()
+			defer mu.Unlock()
+			id := gsev.Num(e.ID())
+			nCheck[id]++
+			fail := c14Hit(hist.fc, id, nCheck[id]) || len(parents) != len(e.Parents())
+			recs = append(recs, rec{tok: fmt.Sprintf("C.%%c.%d.%s", id, b(!fail)), ev: e.(*gsev.Ev)})
+			if fail {
+				return c14ErrCheck
+			}
+			return nil
+		},
+	})
+	onFirstID := func(e *gsev.Ev) {
+		mu.Lock()
+		recs = append(recs, rec{start: e})
+		mu.Unlock()
+	}
+	var segment []*gsev.Ev
+	scriptIdx := 0
+	flush := func() {
+		var wg sync.WaitGroup
+		gate := make(chan struct{})
+		for gi := 0; gi < g; gi++ {
+			wg.Add(1)
+			go func(gi int) {
+				defer wg.Done()
+				<-gate
+				for _, e := range segment {
+					if int(e.Eid%uint64(g)) != gi {
+						continue
+					}
+					c := buf.PushEvent(e, "peer"+strconv.Itoa(e.Cid))
+					mu.Lock()
+					complete[e] = c
+					mu.Unlock()
+					runtime.Gosched()
+				}
+			}(gi)
+		}
+		close(gate)
+		wg.Wait()
+		segment = nil
+		mu.Lock()
+		recs = append(recs, rec{}) // barrier: the last push of the segment has returned
+		mu.Unlock()
+	}
+	for _, op := range hist.ops {
+		switch op[0] {
+		case "G":
+		case "P":
+			if len(op) < 4 || len(op) != 4+int(c14U(op[3])) {
+				panic("bad push")
+			}
+			ps := make([]uint64, 0, len(op)-4)
+			for _, t := range op[4:] {
+				ps = append(ps, c14U(t))
+			}
+			e := gsev.New(scriptIdx, c14U(op[1]), ps, int(c14U(op[2])), 1)
+			e.OnFirstID = onFirstID
+			scriptIdx++
+			segment = append(segment, e)
+			vu.Stat("op_push_concurrent")
+		case "K":
+			flush()
+			buf.Clear()
+			tot := buf.Total()
+			mu.Lock()
+			recs = append(recs, rec{tok: fmt.Sprintf("K.%d.%d", tot.Num, tot.Size)})
+			mu.Unlock()
+		case "X":
+			flush()
+			id := c14U(op[1])
+			mu.Lock()
+			connected[id] = gsev.New(-1, id, nil, 1, 1)
+			recs = append(recs, rec{tok: fmt.Sprintf("X.%d", id)})
+			mu.Unlock()
+		default:
+			panic("bad op")
+		}
+	}
+	flush()
+	// renumber the copies in linearised order and close every push with its D token
+	num := map[*gsev.Ev]int{}
+	var order []string
+	var out []string
+	var cur *gsev.Ev
+	closePush := func() {
+		if cur != nil {
+			out = append(out, fmt.Sprintf("D.%d.%s.?.?", num[cur], b(complete[cur])))
+			cur = nil
+		}
+	}
+	for _, r := range recs {
+		if r.start != nil {
+			num[r.start] = len(num)
+			order = append(order, strconv.Itoa(r.start.Cid))
+		}
+	}
+	for _, r := range recs {
+		switch {
+		case r.start != nil:
+			closePush()
+			cur = r.start
+		case r.ev != nil:
+			n, ok := num[r.ev]
+			if !ok {
+				n = -1
+			}
+			out = append(out, strings.Replace(r.tok, "%c", strconv.Itoa(n), 1))
+		default:
+			closePush()
+			if r.tok != "" {
+				out = append(out, r.tok)
+			}
+		}
+	}
+	closePush()
+	vu.Stat("concurrent_history")
+	sw := 0
+	for i := 1; i < len(order); i++ {
+		a, _ := strconv.Atoi(order[i-1])
+		c, _ := strconv.Atoi(order[i])
+		if c < a {
+			sw++ // the linearisation departs from script order here
+		}
+	}
+	vu.StatN("concurrent_order_inversions", sw)
+	return append([]string{"L." + strings.Join(order, "_")}, out...)
 }
 
 // ---- generators
@@ -298,11 +563,10 @@ func c14Exhaustive(k int, emit func(...string)) {
 	lims := [][2]uint64{{0, 0}, {1, c14Big}, {2, c14Big}, {c14Big, 3}, {c14Big, c14Big}}
 	for _, d := range c14AllDags(k) {
 		for _, perm := range c14Perms(k) {
-			ops := make([]string, 0, k+1)
+			ops := make([]string, 0, k)
 			for _, i := range perm {
 				ops = append(ops, c14PushTok(d[i]))
 			}
-			ops = append(ops, "K")
 			for f := 0; f <= 2*k; f++ {
 				var fc, fp [][2]uint64
 				if f >= 1 && f <= k {
@@ -312,6 +576,7 @@ func c14Exhaustive(k int, emit func(...string)) {
 				}
 				for _, l := range lims {
 					c14Emit(emit, l[0], l[1], fc, fp, ops)
+					c14Emit(emit, l[0], l[1], fc, fp, append(append([]string{}, ops...), "K"))
 				}
 			}
 		}
@@ -438,6 +703,48 @@ func c14Random(r *rand.Rand, emit func(...string)) {
 	c14Emit(emit, limN, limS, fc, fp, ops)
 }
 
+// completeness stream: distinct events of a parents-closed DAG in a random (mostly children-first)
+// order, no failures, limits exactly sufficient or absent, with or without a final Clear
+func c14Complete(r *rand.Rand, emit func(...string)) {
+	k := 2 + r.Intn(11)
+	d := c14RandDag(r, k)
+	total := 0
+	for _, n := range d {
+		total += n.size
+	}
+	order := r.Perm(k)
+	if r.Intn(2) == 0 {
+		for i := range order {
+			order[i] = k - 1 - i
+		}
+		for s := 0; s < r.Intn(3); s++ {
+			a, b := r.Intn(k), r.Intn(k)
+			order[a], order[b] = order[b], order[a]
+		}
+	}
+	var ops []string
+	for _, i := range order {
+		ops = append(ops, c14PushTok(d[i]))
+	}
+	if r.Intn(2) == 0 {
+		ops = append(ops, "K")
+	}
+	var limN, limS uint64 = c14Big, c14Big
+	if r.Intn(2) == 0 {
+		limN, limS = uint64(k), uint64(total)
+	}
+	vu.Stat("gen_complete")
+	c14Emit(emit, limN, limS, nil, nil, ops)
+}
+
+// concurrent stream: the same kind of histories as c14Random, pushed by 2-3 goroutines
+func c14Concurrent(r *rand.Rand, emit func(...string)) {
+	c14Random(r, func(in ...string) {
+		out := append(append([]string{}, in...), ";", "G", strconv.Itoa(2+r.Intn(2)))
+		emit(out...)
+	})
+}
+
 func init() {
 	vu.Register("C14", &vu.Prop{
 		Gen: func(r *rand.Rand, n int, tier string, emit func(...string)) {
@@ -448,7 +755,14 @@ func init() {
 				c14Exhaustive(4, emit)
 			}
 			for i := 0; i < n; i++ {
-				c14Random(r, emit)
+				switch {
+				case i%5 == 3:
+					c14Complete(r, emit)
+				case i%5 == 4:
+					c14Concurrent(r, emit)
+				default:
+					c14Random(r, emit)
+				}
 			}
 		},
 		Run: c14Run,
